@@ -25,6 +25,7 @@ DECIDES = (
     "positions 0/1, duplicate keys are sorted on both sides (C05.SLAVE-ONLY); get_patches_at_corner returns exactly the patches "
     "of the three sides meeting at each of the 8 corners (C05.CORNER-PATCHES)."
     ' the coincidence tests are purely absolute (no numpy isclose/allclose relative part), against TOL, on a non-negative quantity, strict (C05.TOLERANCE-SIBLINGS); clear()/backport() keep the merged pairs the slave-duplicate exception rests on (C05.USER-STATE-SURVIVES = C12.CLEAR-COMPLETE).'
+    ' No lazily cached slave-patch set survives a later merge (C05.NO-STALE-CACHE).'
 )
 NOT_DECIDED = "geometric coincidence itself and independence from insertion order for arbitrary point sets."
 ASSUMPTIONS = []
